@@ -152,7 +152,9 @@ theorem abortOne_clean {P s} (h : Str P s) (i) : Clean P s (abortOne s i) := by
   · rename_i k hk
     split
     · exact (remove_shrink s i k hk).congr rfl rfl rfl rfl rfl rfl rfl
-    · exact (invalidate_clean h k).2
+    · split
+      · exact Shrink.refl s
+      · exact (invalidate_clean h k).2
 
 /-- folding cleanup steps -/
 theorem foldl_clean {β : Type} {P} (f : State → β → State)
@@ -344,20 +346,50 @@ theorem invalidateAll_ghost {P s} (h : Str P s) (ks) :
       exact hsh.ghostKept i (hq i (hsh.cache k i hi)))
     ks s h (Shrink.refl s)
 
-/-- after `_abort`: every registered object is either disowned (it was in `_added`) or a ghost -/
+/-- `foldl_effect` with an extra invariant of the steps -/
+theorem foldl_effectI {β : Type} {P} (f : State → β → State) (Q : β → State → Prop) (I : State → Prop)
+    (hf : ∀ s x, Str P s → Clean P s (f s x)) (hI : ∀ s x, I s → I (f s x))
+    (s0 : State)
+    (hest : ∀ t x, Str P t → Shrink s0 t → I t → Q x (f t x))
+    (hstab : ∀ t t' x, Shrink t t' → Q x t → Q x t') :
+    ∀ (l : List β) (s : State), Str P s → Shrink s0 s → I s → ∀ x ∈ l, Q x (l.foldl f s) := by
+  intro l
+  induction l with
+  | nil => intro s _ _ _ x hx; cases hx
+  | cons y t ih =>
+    intro s hs h0 hi x hx
+    simp only [List.foldl_cons]
+    rcases List.mem_cons.1 hx with hx | hx
+    · subst hx
+      exact hstab _ _ x (foldl_clean f hf t _ (hf s x hs).1).2 (hest s x hs h0 hi)
+    · exact ih _ (hf s y hs).1 (h0.trans (hf s y hs).2) (hI s y hi) x hx
+
+theorem abortOne_creating (s : State) (i) : (abortOne s i).creating = s.creating := by
+  unfold abortOne
+  split
+  · rfl
+  · split
+    · rfl
+    · split
+      · rfl
+      · unfold invalidate; split <;> rfl
+
+/-- after `_abort`: every registered object is either disowned (it was in `_added`), or a ghost, or a new
+    object that was stored already (left alone: `_invalidate_creating` disowns it with its state) -/
 theorem abortObjs_effect {s} (h : Str [] s) :
     ∀ i ∈ s.registered, ∀ k, (s.objs i).oid = some k →
       (s.added.get k = some i → ((abortObjs s).objs i).oid = none) ∧
-      (s.added.get k = none →
+      (s.added.get k = none → s.creating.has k = false →
         ((abortObjs s).objs i).status = .ghost ∨ ((abortObjs s).objs i).oid = none) := by
   intro i hi k hk
-  have := foldl_effect (P := []) abortOne
+  have := foldl_effectI (P := []) abortOne
     (fun i t => ∀ k, (s.objs i).oid = some k →
       (s.added.get k = some i → (t.objs i).oid = none) ∧
-      (s.added.get k = none → (t.objs i).status = .ghost ∨ (t.objs i).oid = none))
-    (fun _ k h => abortOne_clean h k) s
+      (s.added.get k = none → s.creating.has k = false → (t.objs i).status = .ghost ∨ (t.objs i).oid = none))
+    (fun t => t.creating = s.creating)
+    (fun _ k h => abortOne_clean h k) (fun t x hI => by rw [abortOne_creating]; exact hI) s
     (by
-      intro t i ht hsh k hk
+      intro t i ht hsh hcr k hk
       have hoid := hsh.oid i
       rw [hk] at hoid
       unfold abortOne
@@ -376,13 +408,15 @@ theorem abortObjs_effect {s} (h : Str [] s) :
           have hhas : t.added.has k = true := by rw [Map.has_iff, this]; simp
           rw [if_pos hhas]
           simp [disown, setO]
-        · intro ha
+        · intro ha hncr
           have hnone : t.added.get k = none := by
             cases hc : t.added.get k with
             | none => rfl
             | some j => have := hsh.added k j hc; rw [ha] at this; cases this
           have hhas : ¬ t.added.has k = true := by rw [Map.has_iff, hnone]; simp
           rw [if_neg hhas]
+          have hcr' : ¬ t.creating.has k = true := by rw [hcr, hncr]; simp
+          rw [if_neg hcr']
           rcases hkn with h1 | h1
           · left
             unfold invalidate
@@ -390,7 +424,7 @@ theorem abortObjs_effect {s} (h : Str [] s) :
             simp [setO]
           · rw [hnone] at h1; cases h1
       · rw [hoid.1]
-        exact ⟨fun _ => hoid.1, fun _ => Or.inr hoid.1⟩)
+        exact ⟨fun _ => hoid.1, fun _ _ => Or.inr hoid.1⟩)
     (by
       intro t t' i hsh hq k hk
       obtain ⟨h1, h2⟩ := hq k hk
@@ -398,11 +432,11 @@ theorem abortObjs_effect {s} (h : Str [] s) :
       · intro ha
         have := hsh.noneKept i (h1 ha)
         rw [this]; exact h1 ha
-      · intro ha
-        rcases h2 ha with h3 | h3
+      · intro ha hncr
+        rcases h2 ha hncr with h3 | h3
         · exact Or.inl (hsh.ghostKept i h3)
         · right; rw [hsh.noneKept i h3]; exact h3)
-    s.registered s h (Shrink.refl s) i hi
+    s.registered s h (Shrink.refl s) rfl i hi
   exact this k hk
 
 end Proofs.Conn
